@@ -35,6 +35,7 @@ class E:
         self.kwargs = kwargs or {}
         self.b0 = b0                    # callable(recv_obj) -> {"self.num_e": n}
         self.note = note
+        self.unmodelled = set()         # array parameters that are rejected by something else than a shape check
         self.variants = []              # flag combinations (kwargs dicts); documented forms / stacks run under each
         self.model = True               # False: acceptance is not a sequence of shape checks; judged by the oracle only
 
@@ -147,7 +148,7 @@ add("transform.rotation_from_up_and_look", "transform._rotation.rotation_from_up
     [{"up": S3, "look": S3}])
 VW = "transform._viewing."
 # `up` is not checked by a shape check: a wrong `up` is rejected (ValueError) by vg.cross / by the ragged np.array of
-# the rotation rows; that is not a sequence of shape checks, so the callable is judged by the oracle only (model=False)
+# the rotation rows; the callable is modelled with `up` ignored (see `unmodelled` below)
 add("transform.world_to_view", VW + "world_to_view", {"position": "campos", "target": "pt0", "up": "up"},
     [{"position": S3, "target": S3, "up": None}, {"position": S3, "target": S3, "up": S3}])
 add("transform.view_to_orthographic_projection", VW + "view_to_orthographic_projection", {}, [{}],
@@ -431,7 +432,9 @@ variants("Box.contains", [dict(), dict(atol=0.5)])
 variants("Line.__init__", _prod(assume_normalized=[False, True]))
 variants("Polyline.__init__", _prod(is_closed=[False, True]))
 BY_PUBLIC["transform.cv2_rodrigues"].model = False   # dispatches on r.size == 3 / r.shape == (3, 3), else ValueError
-BY_PUBLIC["transform.world_to_view"].model = False    # `up` is rejected by vg.cross / np.array, not by a shape check
+# `up` is rejected by vg.cross / np.array, not by a shape check: the callable is modelled with `up` ignored; a probe that
+# passes `up` is judged by the oracle only
+BY_PUBLIC["transform.world_to_view"].unmodelled = {"up"}
 
 # contracts of the checks done OUTSIDE polliwog (vg), hand-written from site-packages/vg/core.py (trusted)
 EXTERNAL = [("vg.core.apex", ['Check "points" [DAny; DInt 3] None', 'Check "along" [DInt 3] None'])]
